@@ -20,6 +20,8 @@
 #include <lp/process.h>
 #include <mm/model_allocator.h>
 #include <mm/msg_allocator.h>
+#include <lib/random/random.h>
+#include <lib/random/xoroshiro.h>
 #include <math.h>
 #include <stdlib.h>
 #include <string.h>
@@ -114,7 +116,7 @@ static int P_negative = 0; /* the model is non-terminating by design: returning 
 enum {
 	C_ROLLBACK, C_STRAGGLER, C_ANTI_LOCAL, C_ANTI_BEFORE_PROC, C_ANTI_AFTER_PROC, C_SILENT, C_FOSSIL_RELEASE, C_GVT_ROUNDS,
 	C_COMMITTED, C_CKPT, C_EVENTS, C_BY_PRED, C_BY_TIME, C_BY_STOP, C_ORPHAN, C_CANCEL_IN_QUEUE, C_REQUEUE, C_E_CHECKED,
-	C_T_CHECKED, C_EARLY_EXIT_THREAD, C_STATS_RECORDS, C_NEG_QUIESCENT, C_REMOTE_SENT, C_REMOTE_ANTI, C_EARLY_ANTI, C_REMOTE_ANTI_RECV, C_CANCEL_IN_HANDS, C_CANCEL_REQUEUED, C_CANCEL_PROCESSED
+	C_T_CHECKED, C_EARLY_EXIT_THREAD, C_STATS_RECORDS, C_NEG_QUIESCENT, C_REMOTE_SENT, C_REMOTE_ANTI, C_EARLY_ANTI, C_REMOTE_ANTI_RECV, C_CANCEL_IN_HANDS, C_CANCEL_REQUEUED, C_CANCEL_PROCESSED, C_RNG_CHECKED
 };
 
 /* ------------------------------------------------------------------ monitor state */
@@ -172,7 +174,7 @@ static struct mrec *mr_find(const struct lp_msg *p, int create)
 
 static int want(const char *o)
 {
-	return !strcmp(P_oracle, "all") || strstr(P_oracle, o) != NULL;
+	return !strcmp(P_oracle, "all") || strstr(P_oracle, o) != NULL; /* E K G R M T L N */
 }
 
 /* ------------------------------------------------------------------ model side */
@@ -192,6 +194,18 @@ static void h_on_fini(uint64_t me, const struct vm_state *st)
 static void h_dispatch(lp_id_t me, simtime_t now, unsigned type, const void *pl, unsigned size, void *st)
 {
 	int th = TH();
+	if(type == LP_INIT && want("N")) {
+		/* C09: the library stream of an LP is a function of the seed and the LP id only */
+		struct rng_ctx c = *current_lp->rng_ctx;
+		for(int k = 0; k < 4; ++k) {
+			uint64_t v = random_u64(c.state);
+			if(v != REF.rng_first[me][k])
+				rs_fail("C09 random stream of LP %llu depends on its placement: draw #%d is %016llx on rank %d thread %u, %016llx in the "
+					"reference", (unsigned long long)me, k, (unsigned long long)v, rs_rank(), (unsigned)rid,
+				    (unsigned long long)REF.rng_first[me][k]);
+		}
+		rs_count(C_RNG_CHECKED, 1);
+	}
 	vm_process_event(me, now, type, pl, size, st);
 	if(type == LP_INIT || type == LP_FINI)
 		return;
@@ -843,7 +857,7 @@ static const struct rs_harness H = {
 	[C_CANCEL_IN_QUEUE] = "cancelled_while_queued", [C_E_CHECKED] = "end_state_compared", [C_T_CHECKED] = "termination_checked",
 	[C_NEG_QUIESCENT] = "negative_quiescent", [C_REMOTE_SENT] = "remote_events_sent", [C_REMOTE_ANTI] = "remote_anti_sent",
 	[C_EARLY_ANTI] = "early_remote_anti", [C_CANCEL_IN_HANDS] = "cancelled_extracted_unprocessed",
-	[C_CANCEL_REQUEUED] = "cancelled_after_requeue", [C_CANCEL_PROCESSED] = "cancelled_after_processing", [C_REMOTE_ANTI_RECV] = "remote_anti_extracted", [40] = "mpi_invisible", [41] = "mpi_reordered", [42] = "mpi_collective_delayed"},
+	[C_CANCEL_REQUEUED] = "cancelled_after_requeue", [C_RNG_CHECKED] = "rng_stream_checked", [C_CANCEL_PROCESSED] = "cancelled_after_processing", [C_REMOTE_ANTI_RECV] = "remote_anti_extracted", [40] = "mpi_invisible", [41] = "mpi_reordered", [42] = "mpi_collective_delayed"},
 };
 
 int main(int argc, char **argv)
